@@ -232,7 +232,7 @@ def rand_flat(rng, kind):
     if kind == "P":
         return ("P", rpt(rng))
     if kind == "L":
-        return ("L", rpt(rng), rdir(rng))
+        return ("L", rpt(rng), mul(rdir(rng), rng.choice((F(1, 8), F(1, 4), F(1, 2), 1, 1, 1, 2))))
     if kind == "H":
         return ("H", rpt(rng), mul(rdir(rng), rng.choice((F(1, 8), F(1, 4), F(1, 2), 1, 1, 1, 2))))
     if kind == "S":
